@@ -176,3 +176,74 @@ def refresh(ctx):
     if found < 1:
         raise AnalysisError('anchor-vanished: no loop refreshes the cached coordinates of DirectoryRecord children')
     return obs
+
+
+@rule('SA-COORD.seekwrite')
+@props('C01', 'C03', 'C17')
+def seekwrite(ctx):
+    """What is written at a descriptor's location is that descriptor.
+
+    The image is assembled by pairs "seek to X.extent_location(), write Y.record()" (volume descriptors, boot records,
+    UDF descriptors, in write() and in modify_file_in_place()).  For every write whose data is the record of an object
+    (directly, or through a local `rec = Y.record(...)`) the positioning that precedes it on the path - the last seek
+    before the write - has to be computed from the same object expression: X == Y.  Inside `for pvd in self.pvds` the
+    loop variable and `self.pvd` are different objects for every copy but the first; mixing them writes each copy
+    over the first one."""
+    from .. import expand as ex
+    from .. import cfg as cfgmod
+    obs = []
+    npairs = 0
+    import re
+    for fi in ctx.m.pkg_functions():
+        if fi.module != 'pycdlib':
+            continue
+        g = None
+        for n in ctx.own_nodes(fi):
+            if not (isinstance(n, ast.Call) and isinstance(n.func, ast.Attribute) and n.func.attr in ('write', '_outfp_write_with_check')):
+                continue
+            data = n.args[-1] if n.args else None
+            if data is None:
+                continue
+            st = ctx.enclosing_stmt(fi, n)
+            x = ex.expand(ctx, fi, data, st)
+            if not (isinstance(x, ast.Call) and isinstance(x.func, ast.Attribute) and x.func.attr == 'record'):
+                continue
+            written = norm(x.func.value)
+            if g is None:
+                g = ctx.cfg(fi)
+            wn = g.node_of(st)
+            if wn is None:
+                continue
+            # last seek before the write: walk predecessors (straight-line within the block is what the code does)
+            seek = None
+            par = ctx.parents(fi)
+            blk = None
+            p = par.get(id(st))
+            for fld in ('body', 'orelse', 'finalbody'):
+                b = getattr(p, fld, None)
+                if isinstance(b, list) and any(z is st for z in b):
+                    blk = b
+            if blk is None:
+                continue
+            i = [k for k, z in enumerate(blk) if z is st][0]
+            for z in reversed(blk[:i]):
+                cs = [c for c in ast.walk(z) if isinstance(c, ast.Call) and isinstance(c.func, ast.Attribute) and c.func.attr in ('seek', '_seek_to_extent')]
+                if cs:
+                    seek = cs[-1]
+                    break
+                if any(isinstance(c, ast.Call) and isinstance(c.func, ast.Attribute) and c.func.attr in ('write', '_outfp_write_with_check') for c in ast.walk(z)):
+                    break
+            if seek is None or not seek.args:
+                continue
+            locs = [c for c in ast.walk(ex.expand(ctx, fi, seek.args[0], ctx.enclosing_stmt(fi, seek))) if isinstance(c, ast.Call) and isinstance(c.func, ast.Attribute) and c.func.attr == 'extent_location']
+            if len(locs) != 1:
+                continue
+            npairs += 1
+            at = norm(locs[0].func.value)
+            ok = at == written or written.startswith(at + '.')      # a part of the located object (the boot info table inside its file)
+            obs.append(Ob('SA-COORD.seekwrite', '%s|write %s.record() at its own location' % (fi.qual, written), ok, ctx.loc(fi, n),
+                          '' if ok else 'the handle is positioned at `%s.extent_location()` and then `%s.record()` is written there: the record of one object lands on the '
+                          'sectors of another (for every copy of a duplicated descriptor but the first, the copy is never updated and the first is overwritten)' % (at, written)))
+    if npairs < 4:
+        raise AnalysisError('anchor-vanished: seek-to-location / write-record pairs (%d)' % npairs)
+    return obs
